@@ -52,6 +52,8 @@ GAMMA = {
     "gk": lambda c, k, mu, ss, team, rank: 1.0 / k,
     "gr": lambda c, k, mu, ss, team, rank: 1.0 / (rank + 1),
     "gt": lambda c, k, mu, ss, team, rank: len(team) / k,
+    "gm": lambda c, k, mu, ss, team, rank: abs(mu) / (abs(mu) + c),
+    "gp": lambda c, k, mu, ss, team, rank: math.fsum(sg for _, sg in team) / (c * len(team)),
 }
 
 
